@@ -71,6 +71,24 @@ SUM = {
  "C16d": "rotate_chars tests the font for the ORIGINAL code point instead of the mirrored one (.notdef for unmirrorable pairs)",
  "C17d": "morx drive(): state no longer reset to START_OF_TEXT when a switched-off range is skipped",
  "C18d": "F_GLOBAL_SEARCH fallback lost its `!found` guard (vert of another language system wins in vertical text)",
+ "C01e": "Indic OT_MPst look-behind lost its `i > start` guard (pre-base matra first in a syllable without dotted circle: index underflow)",
+ "C02e": "USE repha reordering merges clusters over (start, i) before the index is adjusted (one glyph short)",
+ "C03e": "Khmer reorder pause returns false (stale set digest after dotted-circle insertion / reorder)",
+ "C04e": "setup_masks_fraction flags unsafe_to_concat from `start` instead of `start - 1` (reversed buffers)",
+ "C05e": "clear() no longer resets `idx` (dotted-circle insertion copies cur(0) from a stale index after reuse)",
+ "C06e": "apply_lookup: positions of glyphs inserted by a growing nested lookup all set to `match_positions[idx]+1`",
+ "C07e": "MarkToMark back-search masks lookup props with `!IGNORE_MARKS` instead of `!IGNORE_FLAGS`",
+ "C08e": "Hebrew presentation-form table: AYIN / FINAL PE dagesh rows swapped",
+ "C09e": "normalizer reordering round starts at i = 1 (first mark run of the buffer never reordered)",
+ "C10e": "Coverage format-1 collect stops at the first descending glyph id (unsorted coverage: digest misses glyphs)",
+ "C11e": "UnicodeBuffer::clear() clears only the pre-context",
+ "C12e": "Hangul shaper normalization preference AUTO instead of NONE (jamo composed by the normalizer with no font check for the syllable's features)",
+ "C13e": "hide_default_ignorables: PRESERVE|REMOVE flag precedence changed",
+ "C14e": "may_match: feature-mask test moved below the match-function early return (context input glyphs outside the range accepted)",
+ "C15e": "insert_dotted_circle drops the `cluster` assignment (dotted circle gets cluster 0)",
+ "C16e": "fallback SPACE_FIGURE vertical arm writes x_advance instead of y_advance",
+ "C17e": "morx ligature action: match_length taken modulo 64 (long ligature stacks wrap)",
+ "C18e": "find_language_feature: `?` inside the loop aborts the search on a dangling feature index",
 }
 rows = []
 for f in sorted(glob.glob("/verif/seeded/*/meta.json")):
